@@ -145,6 +145,22 @@ theorem lookup_delAssoc_ne {β : Type} (k k' : Name) (hne : k' ≠ k) : ∀ (m :
       · exact ih
       · rfl
 
+theorem keys_mapSet {β : Type} (k : Name) (v : β) : ∀ (m : List (Name × β)), (mapSet m k v).map (·.1) = m.map (·.1) := by
+  intro m
+  induction m with
+  | nil => rfl
+  | cons p ps ih =>
+    obtain ⟨k2, v2⟩ := p
+    unfold mapSet at ih ⊢
+    by_cases e : k2 = k
+    · subst e; simp only [List.map_cons, beq_self_eq_true, if_true, ih]
+    · have hb : (k2 == k) = false := by simpa using e
+      simp only [List.map_cons, hb, Bool.false_eq_true, if_false, ih]
+
+theorem keys_setAssoc_existing {β : Type} (m : List (Name × β)) (k : Name) (v : β) (h : m.any (·.1 == k) = true) :
+    (setAssoc m k v).map (·.1) = m.map (·.1) := by
+  rw [setAssoc_eq, if_pos h]; exact keys_mapSet k v m
+
 /-! ## Scripts -/
 
 def step (d : Dev) (c : Chg) : Option Dev := match exec1 d c with | .ok d' => some d' | .error _ => none
